@@ -40,9 +40,16 @@ def leaves(e, out=None):
 
 
 def strip_casts(e):
-    while isinstance(e, tuple) and e[0] in ("cast", "use") and len(e) > 1 and isinstance(e[1], tuple):
-        e = e[1]
-    return e
+    """drop casts and collapse reborrows: &mut *(&mut P) -> &mut P"""
+    while True:
+        if isinstance(e, tuple) and e[0] in ("cast", "use") and len(e) > 1 and isinstance(e[1], tuple):
+            e = e[1]
+            continue
+        if isinstance(e, tuple) and e[0] == "ref" and isinstance(e[2], tuple) and e[2][0] == "place" and e[2][2] == ("*",) \
+                and isinstance(e[2][1], tuple) and e[2][1][0] in ("ref", "cast"):
+            e = e[2][1]
+            continue
+        return e
 
 
 class Tag:
